@@ -37,7 +37,18 @@ def check(arr, tol=None):
             warnings.simplefilter("ignore")
             back, encs = roundtrip(arr, tol)
     except (ValueError, OverflowError, TypeError) as e:
-        return None          # rejected with an error: allowed by the property
+        # rejected with an error: allowed by the property only for values the format cannot hold - BinaryCIF has
+        # 8..32 bit integers (signed or unsigned) and 32 / 64 bit floats, so every float array and every integer
+        # array within one of these ranges has to be accepted
+        if np.issubdtype(arr.dtype, np.floating):
+            return f"compress() refused a float array: {type(e).__name__}: {e}"
+        vals = [int(x) for x in arr.tolist()]
+        # (a 64-bit dtype is mapped to the 32-bit type of the same signedness: an int64 array holding 2**31 may be
+        #  refused although uint32 could hold it - for one element it is, for several compress() picks uint32)
+        lo, hi = (0, 2 ** 32 - 1) if arr.dtype.kind == "u" else (-2 ** 31, 2 ** 31 - 1)
+        if not vals or (min(vals) >= lo and max(vals) <= hi):
+            return f"compress() refused integers that fit the 32-bit type of their signedness: {type(e).__name__}: {e}"
+        return None
     back = np.asarray(back)
     if back.shape != arr.shape:
         return f"shape {back.shape} != {arr.shape} via {encs}"
